@@ -187,7 +187,16 @@ func genC12(g *Gen) {
 			g.Emit(0x1202, L(S(p), S(q)), p != q && len(p) > 0 && len(q) > 0, "cmp-alpha")
 		}
 	}
-	bytesPool := []byte{0x01, ' ', '-', '.', '/', '0', 'a', 'b', '~', 0x80, 0xff}
+	// exhaustive over every pair of bytes at the first difference (any per-byte ranking anomaly,
+	// e.g. a byte that ties with or sorts below the separator, shows up here)
+	for c1 := 0; c1 < 256; c1++ {
+		for c2 := 0; c2 < 256; c2++ {
+			p := []byte{'a', byte(c1), 'z'}
+			q := []byte{'a', byte(c2), 'a'}
+			g.Emit(0x1202, L(B(p), B(q)), c1 != c2 && (c1 == '/' || c2 == '/'), "cmp-bytepairs")
+		}
+	}
+	bytesPool := []byte{0x00, 0x01, ' ', '-', '.', '/', '0', 'a', 'b', '~', 0x80, 0xff}
 	nPairs := g.Vol(20000, 400000)
 	for i := 0; i < nPairs; i++ {
 		r := g.Rng
